@@ -8,6 +8,7 @@ pub mod c10;
 pub mod c11;
 pub mod c12;
 pub mod c13;
+pub mod c16;
 pub mod c19;
 
 pub fn run(ctx: &Ctx) -> i32 {
@@ -20,6 +21,7 @@ pub fn run(ctx: &Ctx) -> i32 {
         "C11" => c11::run(ctx),
         "C12" => c12::run(ctx),
         "C13" => c13::run(ctx),
+        "C16" => c16::run(ctx),
         "C19" => c19::run(ctx),
         _ => {
             eprintln!("machinery error: no check registered for {}", ctx.prop);
@@ -49,6 +51,7 @@ pub fn replay(ctx: &Ctx, path: &str) -> i32 {
         "C11" => c11::replay(ctx, &body),
         "C12" => c12::replay(ctx, &body),
         "C13" => c13::replay(ctx, &body),
+        "C16" => c16::replay(ctx, &body),
         "C19" => c19::replay(ctx, &body),
         _ => {
             eprintln!("machinery error: no replay registered for {}", ctx.prop);
